@@ -6,6 +6,7 @@ import (
 	"fmt"
 	"html/template"
 	"strings"
+	"sync"
 	"testing"
 
 	"verif/internal/gen"
@@ -19,26 +20,62 @@ import (
 
 func TestMain(m *testing.M) { vk.Main(m) }
 
+// scrub renders an unrelated template whose output is longer than n bytes. Every
+// check calls it between obtaining an output and comparing it: an output that
+// shares memory with engine state reused by a later render (a pooled or
+// per-template buffer) is then compared after that state has been overwritten.
+func scrub(n int) {
+	size := 64
+	for size < n+16 {
+		size *= 4
+	}
+	var t *plush.Template
+	if v, ok := scrubbers.Load(size); ok {
+		t = v.(*plush.Template)
+	} else {
+		t, _ = plush.NewTemplate(strings.Repeat("#", size) + "<%= 0 %>")
+		scrubbers.Store(size, t)
+	}
+	vk.Safe(func() (string, error) { return t.Exec(plush.NewContext()) })
+}
+
+var scrubbers sync.Map // size -> parsed template
+
 // ---- (1) reference text scanner ----------------------------------------------------------
 
 const tag = "<%= 1 %>"
 
-// refScan reads a template made of literal text and occurrences of the fixed
-// tag <%= 1 %> exactly as the statement describes: \<% is a literal <%, \\<% is
+// tagSpec is one fixed, well-formed tag and what it contributes to the output.
+type tagSpec struct{ Src, Val string }
+
+// the tag kinds a literal text can stand next to: output tag, code tag, comment
+// tag, output tag spelled without blanks holding a string literal.
+var tagVariants = []tagSpec{{tag, "1"}, {"<% 2 %>", ""}, {"<%# 3 %>", ""}, {"<%=\"s\"%>", "s"}}
+
+// refScan reads a template made of literal text and occurrences of the given
+// fixed tags exactly as the statement describes: \<% is a literal <%, \\<% is
 // one backslash followed by a live tag, every other byte is copied. status:
-// "ok", "live" (a live opener that is not the fixed tag: not literal text) or
-// "ambiguous" (three or more backslashes before <%: the statement does not say).
-func refScan(src string) (out string, status string) {
+// "ok", "live" (a live opener that is not one of the fixed tags: not literal
+// text) or "ambiguous" (three or more backslashes before <%: the statement does
+// not say).
+func refScan(src string, tags ...tagSpec) (out string, status string) {
+	if len(tags) == 0 {
+		tags = tagVariants[:1]
+	}
 	var sb strings.Builder
 	i := 0
+scan:
 	for i < len(src) {
 		switch {
 		case strings.HasPrefix(src[i:], "<%"):
-			if !strings.HasPrefix(src[i:], tag) {
-				return "", "live"
+			for _, tg := range tags {
+				if strings.HasPrefix(src[i:], tg.Src) {
+					sb.WriteString(tg.Val)
+					i += len(tg.Src)
+					continue scan
+				}
 			}
-			sb.WriteString("1")
-			i += len(tag)
+			return "", "live"
 		case src[i] == '\\':
 			n := 0
 			for i+n < len(src) && src[i+n] == '\\' {
@@ -71,47 +108,93 @@ type TextCase struct {
 	S     vk.Text `json:"s"`
 	S2    vk.Text `json:"s2,omitempty"`
 	Frame int     `json:"frame"`
+	Tag   int     `json:"tag,omitempty"` // index into tagVariants
 }
 
-var frameNames = []string{"s", "s+TAG", "TAG+s", "s+TAG+s2", "IF{s+TAG}", "FOR2{s+TAG}"}
+var frameNames = []string{"s", "s+TAG", "TAG+s", "s+TAG+s2", "IF{s+TAG}", "FOR2{s+TAG}",
+	"IF{TAG+s}", "ELSEIF{s+TAG+s}", "FN{s+TAG+s}", "BLK{TAG+s}", "SILENT-IF{s+TAG+s}", "FOR2{TAG+s}", "ELSE{TAG+s}"}
+
+// textWrap is a block around the text under test: the text then stands directly
+// after the tag that opens the block and directly before the tag that closes it.
+type textWrap struct {
+	pre, closer, post string
+	reps              int // how often the body is emitted (0: a silent block)
+}
+
+var textWraps = map[string]textWrap{
+	"if":     {"<%= if (true) { %>", "<% } %>", "", 1},
+	"for":    {"<%= for (i) in two { %>", "<% } %>", "", 2},
+	"elseif": {"<%= if (false) { %>n<% } else if (true) { %>", "<% } else { %>", "m<% } %>", 1},
+	"else":   {"<%= if (false) { %>n<% } else { %>", "<% } %>", "", 1},
+	"fn":     {"<% let f = fn() { %>", "<% } %>", "<%= f() %>", 1},
+	"blk":    {"<%= blk() { %>", "<% } %>", "", 1},
+	"silent": {"<% if (true) { %>", "<% } %>", "", 0},
+}
 
 func (c TextCase) source() (src string, wrap string) {
 	s, s2 := string(c.S), string(c.S2)
+	tg := tagVariants[c.Tag].Src
 	switch c.Frame {
 	case 0:
 		return s, ""
 	case 1:
-		return s + tag, ""
+		return s + tg, ""
 	case 2:
-		return tag + s, ""
+		return tg + s, ""
 	case 3:
-		return s + tag + s2, ""
+		return s + tg + s2, ""
 	case 4:
-		return s + tag, "if"
+		return s + tg, "if"
+	case 5:
+		return s + tg, "for"
+	case 6:
+		return tg + s, "if"
+	case 7:
+		return s + tg + s, "elseif"
+	case 8:
+		return s + tg + s, "fn"
+	case 9:
+		return tg + s, "blk"
+	case 10:
+		return s + tg + s, "silent"
+	case 11:
+		return tg + s, "for"
 	default:
-		return s + tag, "for"
+		return tg + s, "else"
 	}
+}
+
+func textData() map[string]interface{} {
+	return map[string]interface{}{"two": []int{1, 2},
+		"blk": func(h plush.HelperContext) (template.HTML, error) { s, err := h.Block(); return template.HTML(s), err }}
 }
 
 func checkText(r *vk.Run, c TextCase) *vk.Fail {
 	defer r.Watch("text", c)()
 	inner, wrap := c.source()
-	want, status := refScan(inner)
+	src := inner
+	var want, status string
+	if wrap == "" {
+		want, status = refScan(inner, tagVariants[c.Tag], tagVariants[0])
+	} else {
+		// the text also stands directly before the tag that closes the block:
+		// that tag is one more fixed tag contributing nothing
+		w := textWraps[wrap]
+		if nb := len(inner) - len(strings.TrimRight(inner, "\\")); nb == 1 {
+			// the backslash escapes the closing tag: the block is not closed, not a template of this frame
+			r.Exclude("not-literal-text:escapes-the-closing-tag")
+			return nil
+		}
+		want, status = refScan(inner+w.closer, tagVariants[c.Tag], tagSpec{w.closer, ""})
+		want = strings.Repeat(want, w.reps)
+		src = w.pre + inner + w.closer + w.post
+	}
 	if status != "ok" {
 		r.Exclude("not-literal-text:" + status)
 		return nil
 	}
-	src := inner
-	switch wrap {
-	case "if":
-		src = "<%= if (true) { %>" + inner + "<% } %>"
-	case "for":
-		src = "<%= for (i) in two { %>" + inner + "<% } %>"
-		want = want + want
-	}
-	res := vk.Safe(func() (string, error) {
-		return plush.Render(src, plush.NewContextWith(map[string]interface{}{"two": []int{1, 2}}))
-	})
+	res := vk.Safe(func() (string, error) { return plush.Render(src, plush.NewContextWith(textData())) })
+	scrub(len(res.Out))
 	nt := ""
 	if strings.ContainsAny(inner, "\\<%") {
 		nt = fmt.Sprintf("%d|%s", c.Frame, inner)
@@ -134,11 +217,23 @@ type StrCase struct {
 	Place int     `json:"place"`
 }
 
-var strPlaces = []struct{ name, pre, post string }{
-	{"top", "[", "]"},
-	{"in if", "<%= if (true) { %>[", "]<% } %>"},
-	{"as argument", "[", "]"}, // <%= id(LIT) %>
-	{"let then emit", "[", "]"},
+// places: %s stands for the literal; reps = how often [value] is expected
+var strPlaces = []struct {
+	name, tmpl string
+	reps       int
+}{
+	{"top", "[<%= %s %>]", 1},
+	{"in if", "<%= if (true) { %>[<%= %s %>]<% } %>", 1},
+	{"as argument", "[<%= id(%s) %>]", 1},
+	{"let then emit", "<% let z = %s %>[<%= z %>]", 1},
+	{"in for", "<%= for (x) in two { %>[<%= %s %>]<% } %>", 2},
+	{"argument of a template function", "<% let f = fn(p) { %>[<%= p %>]<% } %><%= f(%s) %>", 1},
+	{"array element", "[<%= [%s][0] %>]", 1},
+	{"silent tag with the same literal first", "<% %s %>[<%= %s %>]", 1},
+	{"in else-if", "<%= if (false) { %>n<% } else if (true) { %>[<%= %s %>]<% } %>", 1},
+	{"no blanks", "[<%=%s%>]", 1},
+	{"in helper block", "<%= blk() { %>[<%= %s %>]<% } %>", 1},
+	{"line breaks around", "[<%=\n%s\n%>]", 1},
 }
 
 func spell(v, quote string) (string, bool) {
@@ -154,6 +249,13 @@ func spell(v, quote string) (string, bool) {
 	return "\"" + strings.ReplaceAll(v, "\"", "\\\"") + "\"", true
 }
 
+func strData() map[string]interface{} {
+	return map[string]interface{}{"two": []int{1, 2},
+		"id":   func(x interface{}) interface{} { return x },
+		"cat2": func(a, b string) string { return a + "|" + b },
+		"blk":  func(h plush.HelperContext) (template.HTML, error) { s, err := h.Block(); return template.HTML(s), err }}
+}
+
 func checkStr(r *vk.Run, c StrCase) *vk.Fail {
 	defer r.Watch("strlit", c)()
 	v := string(c.V)
@@ -163,18 +265,9 @@ func checkStr(r *vk.Run, c StrCase) *vk.Fail {
 		return nil
 	}
 	pl := strPlaces[c.Place]
-	var src string
-	switch pl.name {
-	case "as argument":
-		src = pl.pre + "<%= id(" + lit + ") %>" + pl.post
-	case "let then emit":
-		src = "<% let z = " + lit + " %>" + pl.pre + "<%= z %>" + pl.post
-	default:
-		src = pl.pre + "<%= " + lit + " %>" + pl.post
-	}
-	res := vk.Safe(func() (string, error) {
-		return plush.Render(src, plush.NewContextWith(map[string]interface{}{"id": func(x interface{}) interface{} { return x }}))
-	})
+	src := strings.ReplaceAll(pl.tmpl, "%s", lit)
+	res := vk.Safe(func() (string, error) { return plush.Render(src, plush.NewContextWith(strData())) })
+	scrub(len(res.Out))
 	nt := ""
 	if strings.ContainsAny(v, "\"`%<>#\\\n") {
 		nt = c.Quote + "|" + v + "|" + pl.name
@@ -186,8 +279,109 @@ func checkStr(r *vk.Run, c StrCase) *vk.Fail {
 	if res.Panicked() || res.Err != nil {
 		return &vk.Fail{Kind: "strlit", Case: c, Msg: fmt.Sprintf("template %q (string denoting %q): %s", src, v, res)}
 	}
-	if m := match.Match([]match.Part{match.L("["), match.E(v), match.L("]")}, res.Out); m != "" {
+	var parts []match.Part
+	for k := 0; k < pl.reps; k++ {
+		parts = append(parts, match.L("["), match.E(v), match.L("]"))
+	}
+	if m := match.Match(parts, res.Out); m != "" {
 		return &vk.Fail{Kind: "strlit", Case: c, Msg: fmt.Sprintf("template %q: the string denotes %q, output %q: %s", src, v, res.Out, m)}
+	}
+	return nil
+}
+
+// PairCase: two string literals in one template; what the first one was must
+// not influence what the second one denotes.
+type PairCase struct {
+	V1    vk.Text `json:"v1"`
+	Q1    string  `json:"q1"`
+	V2    vk.Text `json:"v2"`
+	Q2    string  `json:"q2"`
+	Shape int     `json:"shape"`
+}
+
+var pairShapes = []string{"two tags", "two lets in one tag", "two arguments of one call"}
+
+func checkPair(r *vk.Run, c PairCase) *vk.Fail {
+	defer r.Watch("strpair", c)()
+	v1, v2 := string(c.V1), string(c.V2)
+	l1, ok1 := spell(v1, c.Q1)
+	l2, ok2 := spell(v2, c.Q2)
+	if !ok1 || !ok2 || strings.ContainsRune(v1+v2, 0) {
+		r.Exclude("string-not-expressible")
+		return nil
+	}
+	var src string
+	switch c.Shape {
+	case 0:
+		src = "[<%= " + l1 + " %>|<%= " + l2 + " %>]"
+	case 1:
+		src = "<% let a = " + l1 + "\nlet b = " + l2 + " %>[<%= a %>|<%= b %>]"
+	default:
+		src = "[<%= cat2(" + l1 + ", " + l2 + ") %>]"
+	}
+	res := vk.Safe(func() (string, error) { return plush.Render(src, plush.NewContextWith(strData())) })
+	scrub(len(res.Out))
+	nt := ""
+	if strings.ContainsAny(v1+v2, "\"`%<>#\\\n") {
+		nt = fmt.Sprintf("%d|%s|%s", c.Shape, l1, l2)
+	}
+	r.Count(nt, "string-pair/"+pairShapes[c.Shape])
+	if nt != "" {
+		r.Sample(func() interface{} {
+			return map[string]interface{}{"template": vk.Text(src), "denotes": []vk.Text{c.V1, c.V2}}
+		})
+	}
+	if res.Panicked() || res.Err != nil {
+		return &vk.Fail{Kind: "strpair", Case: c, Msg: fmt.Sprintf("template %q (strings denoting %q and %q): %s", src, v1, v2, res)}
+	}
+	parts := []match.Part{match.L("["), match.E(v1), match.L("|"), match.E(v2), match.L("]")}
+	if c.Shape == 2 {
+		parts = []match.Part{match.L("["), match.E(v1 + "|" + v2), match.L("]")}
+	}
+	if m := match.Match(parts, res.Out); m != "" {
+		return &vk.Fail{Kind: "strpair", Case: c, Msg: fmt.Sprintf("template %q: the strings denote %q and %q, output %q: %s", src, v1, v2, res.Out, m)}
+	}
+	return nil
+}
+
+// ---- (2b) comment tags ------------------------------------------------------------------------
+
+type CommentCase struct {
+	B     vk.Text `json:"b"`
+	Frame int     `json:"frame"`
+}
+
+// %s stands for the comment tag
+var commentFrames = []struct {
+	tmpl string
+	want string
+}{
+	{"[%s]", "[]"},
+	{"[%s<%= 1 %>]", "[1]"},
+	{"[<%= 1 %>%sx]", "[1x]"},
+	{"<%= if (true) { %>[%s]<% } %>", "[]"},
+	{"[%s%s]", "[]"},
+	{"<%= for (x) in two { %>[%sy%s]<% } %>%s", "[y][y]"},
+	{"[<% let q = 4 %>%s<%= q %>]", "[4]"},
+}
+
+func checkComment(r *vk.Run, c CommentCase) *vk.Fail {
+	defer r.Watch("comment", c)()
+	b := string(c.B)
+	if strings.Contains(b, "%>") || strings.ContainsRune(b, 0) {
+		r.Exclude("comment-body-ends-the-comment")
+		return nil
+	}
+	fr := commentFrames[c.Frame]
+	src := strings.ReplaceAll(fr.tmpl, "%s", "<%#"+b+"%>")
+	res := vk.Safe(func() (string, error) {
+		return plush.Render(src, plush.NewContextWith(map[string]interface{}{"two": []int{1, 2}}))
+	})
+	scrub(len(res.Out))
+	r.Count(src, "comment/"+fr.tmpl)
+	r.Sample(func() interface{} { return map[string]interface{}{"template": vk.Text(src), "expected": fr.want} })
+	if res.Panicked() || res.Err != nil || res.Out != fr.want {
+		return &vk.Fail{Kind: "comment", Case: c, Msg: fmt.Sprintf("template %q gave %s, the statement says %q (a comment tag contributes nothing)", src, res, fr.want)}
 	}
 	return nil
 }
@@ -198,185 +392,485 @@ type Seg struct {
 	K    string  `json:"k"`
 	S    vk.Text `json:"s,omitempty"`
 	N    int     `json:"n,omitempty"`
+	M    int     `json:"m,omitempty"`
 	Body []Seg   `json:"body,omitempty"`
+
+	id  int    // preorder number: names of variables and functions derive from it
+	ref string // emit-it: the innermost name bound around it (loop variable or parameter)
 }
 
 type SegCase struct {
 	Segs []Seg `json:"segs"`
+	Pad  int   `json:"pad,omitempty"` // index into pads: the blanks inside the tag delimiters
 }
 
+var pads = []string{" ", "", "\n", "\t", "\r\n  "}
+
+// append only: saved cases refer to these by index
 var silentSrcs = []string{
 	`1 + 2`, `"str<b>"`, `raw("<i>x</i>")`, `hv`, `sv`, `id("z")`, `id(hv)`, `[1, 2]`, `{a: 1}`, `true`, `nil`, `1.5`, `sv + "!"`, `!sv`, `len(sv)`,
 	`let q = 5`, `let q = raw("<u>")`, "`back\nquoted %> <% `", `"%>"`, `uf()`, `two[0]`,
+	// several statements in one tag, line comments, blocks written inside the tag
+	"let q1 = 1\nlet q2 = raw(\"<u>\")", `let q3 = 3; let q4 = "<s>"`, "raw(\"<b>\")\nraw(\"<i>\")", "1 # note <b> \" ` <%= 1\n", "# only a comment\n",
+	"# first\n# second\nlet q5 = 5\n", `fn() { return raw("<b>") }`, `if (true) { raw("<b>") }`, `for (x) in two { x }`, `if (false) { 1 } else { raw("<b>") }`,
+	`let q6 = "<%= 1 %>"`, `sv == sv`, `[hv, sv]`, `{a: hv}`, `blk() { raw("<b>") }`,
 }
 
-type builder struct {
-	src   strings.Builder
-	parts []match.Part
-	data  map[string]interface{}
-	nvar  int
-	nfn   int
-	err   string
-}
+const nIterKinds = 9
+const nFnPatterns = 6
+const nBlkKinds = 2
+const nBranchKinds = 4
 
-func (b *builder) lit(s string) { b.parts = append(b.parts, match.L(s)) }
-
-func (b *builder) emit(segs []Seg, depth int) {
-	for _, s := range segs {
+// prep numbers the segments, resolves what an emit-it refers to and separates
+// text segments that would otherwise change the meaning of their neighbours.
+func prep(segs []Seg, ctr *int, binder string, depth int) {
+	endsLT := false // the source written so far in this list ends in a text '<'
+	for i := range segs {
+		s := &segs[i]
+		*ctr++
+		s.id = *ctr
 		switch s.K {
 		case "text":
 			t := string(s.S)
-			if strings.Contains(t, "<%") || strings.ContainsRune(t, 0) {
-				b.err = "text segment contains a tag opener or NUL"
-				return
-			}
-			if strings.HasSuffix(b.src.String(), "<") && strings.HasPrefix(t, "%") {
+			if endsLT && strings.HasPrefix(t, "%") {
 				t = " " + t // two adjacent text segments must not spell a tag opener
 			}
 			if strings.HasSuffix(t, "\\") {
 				t += "." // a trailing backslash would change the meaning of a tag that follows (covered by E1)
 			}
-			b.src.WriteString(t)
-			b.lit(t)
-		case "esc-tag": // \<%= 1 %> is literal text
-			b.src.WriteString("\\<%= 1 %>")
-			b.lit("<%= 1 %>")
-		case "bs-tag": // \\<%= 2 %> is one backslash and a live tag
-			b.src.WriteString("\\\\<%= 2 %>")
-			b.lit("\\2")
-		case "emit-int":
-			fmt.Fprintf(&b.src, "<%%= %d %%>", s.N)
-			b.lit(fmt.Sprint(s.N))
-		case "emit-var":
-			b.nvar++
-			name := fmt.Sprintf("pv%d", b.nvar)
-			b.data[name] = string(s.S)
-			if string(s.S) == "" {
-				b.data[name] = "x" // an empty string variable counts as unset
-				s.S = "x"
+			s.S = vk.Text(t)
+			if t != "" {
+				endsLT = strings.HasSuffix(t, "<")
 			}
-			b.src.WriteString("<%= " + name + " %>")
-			b.parts = append(b.parts, match.E(string(s.S)))
+			continue
+		case "emit-it":
+			s.ref = binder
+		case "for", "sfor":
+			prep(s.Body, ctr, fmt.Sprintf("it%d", s.id), depth-1)
+		case "fn", "scall":
+			prep(s.Body, ctr, fmt.Sprintf("p%d", s.id), depth-1)
+		default:
+			prep(s.Body, ctr, binder, depth-1)
+		}
+		if nesting[s.K] && depth <= 0 {
+			continue // not written at all (see walk)
+		}
+		endsLT = false
+	}
+}
+
+var nesting = map[string]bool{"if": true, "else": true, "branch": true, "for": true, "sfor": true, "sif": true, "sblk": true, "fn": true, "scall": true, "blk": true}
+
+func arrVals(variant, n int) []int {
+	if variant == 0 {
+		return []int{1, 2, 3}[:n]
+	}
+	return [][]int{{7}, {8, 9}, {4, 5, 6}}[n-1]
+}
+
+var strVals = []string{"a<b", "c&d", "e\"f"}
+
+// iterable returns the source of the iterable and the values the loop variable takes.
+func iterable(kind, n, variant int) (src string, vals []interface{}) {
+	ints := func(xs []int) []interface{} {
+		out := make([]interface{}, len(xs))
+		for i, x := range xs {
+			out[i] = x
+		}
+		return out
+	}
+	switch kind % nIterKinds {
+	case 1:
+		return []string{"[10]", "[10, 20]", "[10, 20, 30]"}[n-1], ints([]int{10, 20, 30}[:n])
+	case 2:
+		return fmt.Sprintf("range(1, %d)", n), ints([]int{1, 2, 3}[:n])
+	case 3:
+		return fmt.Sprintf("fix%d", n), ints(arrVals(variant, n))
+	case 5:
+		return fmt.Sprintf("ptr%d", n), ints(arrVals(variant, n))
+	case 6:
+		out := make([]interface{}, n)
+		for i := range out {
+			out[i] = strVals[i]
+		}
+		return fmt.Sprintf("strs%d", n), out
+	case 7:
+		return "one", []interface{}{5 + variant}
+	case 8:
+		return fmt.Sprintf("until(%d)", n), ints([]int{0, 1, 2}[:n])
+	}
+	return fmt.Sprintf("arr%d", n), ints(arrVals(variant, n)) // 0, and 4 (two-variable form)
+}
+
+func valPart(v interface{}) match.Part {
+	if s, ok := v.(string); ok {
+		return match.E(s)
+	}
+	return match.L(fmt.Sprint(v))
+}
+
+// walker turns segments into source text (when out != nil) and into the
+// expected parts, for one variant of the data.
+type walker struct {
+	pad     string
+	variant int
+	data    map[string]interface{}
+	err     string
+}
+
+func (w *walker) code(eq string, x string) string {
+	pre := w.pad
+	if pre == "" && eq == "" && (strings.HasPrefix(x, "#") || strings.HasPrefix(x, "=")) {
+		pre = " " // <%# and <%= are other tags
+	}
+	return "<%" + eq + pre + x + w.pad + "%>"
+}
+
+func (w *walker) walk(segs []Seg, depth int, env map[string]interface{}, out *strings.Builder) []match.Part {
+	var parts []match.Part
+	p := func(s string) {
+		if out != nil {
+			out.WriteString(s)
+		}
+	}
+	lit := func(s string) { parts = append(parts, match.L(s)) }
+	with := func(name string, v interface{}, f func()) {
+		old, had := env[name]
+		env[name] = v
+		f()
+		if had {
+			env[name] = old
+		} else {
+			delete(env, name)
+		}
+	}
+	for i := range segs {
+		s := segs[i]
+		switch s.K {
+		case "text":
+			t := string(s.S)
+			if strings.Contains(t, "<%") || strings.ContainsRune(t, 0) {
+				w.err = "text segment contains a tag opener or NUL"
+				return nil
+			}
+			p(t)
+			lit(t)
+		case "esc-tag": // \<%= 1 %> is literal text
+			p("\\<%= 1 %>")
+			lit("<%= 1 %>")
+		case "bs-tag": // \\<%= 2 %> is one backslash and a live tag
+			p("\\\\" + w.code("=", "2"))
+			lit("\\2")
+		case "emit-int":
+			p(w.code("=", fmt.Sprint(s.N)))
+			lit(fmt.Sprint(s.N))
+		case "emit-it":
+			if s.ref == "" {
+				p(w.code("=", fmt.Sprint(s.N)))
+				lit(fmt.Sprint(s.N))
+				break
+			}
+			p(w.code("=", s.ref))
+			if v, ok := env[s.ref]; ok {
+				parts = append(parts, valPart(v))
+			} else {
+				w.err = "harness: unbound " + s.ref
+				return nil
+			}
+		case "emit-var":
+			name := fmt.Sprintf("pv%d", s.id)
+			v := string(s.S)
+			if v == "" {
+				v = "x" // an empty string variable counts as unset
+			}
+			if w.variant == 1 {
+				v += "<2>"
+			}
+			w.data[name] = v
+			p(w.code("=", name))
+			parts = append(parts, match.E(v))
 		case "emit-html":
-			b.nvar++
-			name := fmt.Sprintf("ph%d", b.nvar)
+			name := fmt.Sprintf("ph%d", s.id)
 			v := string(s.S)
 			if v == "" {
 				v = "<hr>"
 			}
-			b.data[name] = template.HTML(v)
-			b.src.WriteString("<%= " + name + " %>")
-			b.parts = append(b.parts, match.R(v))
+			if w.variant == 1 {
+				v += "<i>2</i>"
+			}
+			w.data[name] = template.HTML(v)
+			p(w.code("=", name))
+			parts = append(parts, match.R(v))
 		case "emit-str":
 			q := "\""
 			if s.N == 1 {
 				q = "`"
 			}
-			lit, ok := spell(string(s.S), q)
+			l, ok := spell(string(s.S), q)
 			if !ok {
-				lit, ok = spell(string(s.S), "`")
+				l, ok = spell(string(s.S), "`")
 			}
 			if !ok || strings.ContainsRune(string(s.S), 0) {
-				b.err = "string literal not expressible"
-				return
+				w.err = "string literal not expressible"
+				return nil
 			}
-			b.src.WriteString("<%= " + lit + " %>")
-			b.parts = append(b.parts, match.E(string(s.S)))
+			p(w.code("=", l))
+			parts = append(parts, match.E(string(s.S)))
 		case "silent":
-			b.src.WriteString("<% " + silentSrcs[s.N%len(silentSrcs)] + " %>")
+			p(w.code("", silentSrcs[s.N%len(silentSrcs)]))
 		case "silent-if":
-			b.src.WriteString("<% if (sv) { %>hidden text<%= sv %><% } %>")
+			p("<% if (sv) { %>hidden text<%= sv %><% } %>")
 		case "silent-for":
-			b.src.WriteString("<% for (x) in two { %>hidden<%= x %><% } %>")
+			p("<% for (x) in two { %>hidden<%= x %><% } %>")
 		case "assign":
-			b.src.WriteString("<% let w = 1 %><% w = 2 %>")
+			p("<% let w = 1 %><% w = 2 %>")
 		case "comment":
 			c := string(s.S)
 			if strings.Contains(c, "%>") || strings.ContainsRune(c, 0) {
-				b.err = "comment body contains %>"
-				return
+				w.err = "comment body contains %>"
+				return nil
 			}
-			b.src.WriteString("<%#" + c + "%>")
+			p("<%#" + c + "%>")
 		case "if":
 			if depth <= 0 {
 				continue
 			}
-			b.src.WriteString("<%= if (true) { %>")
-			b.emit(s.Body, depth-1)
-			b.src.WriteString("<% } %>")
+			p(w.code("=", "if (true) {"))
+			parts = append(parts, w.walk(s.Body, depth-1, env, out)...)
+			p(w.code("", "}"))
 		case "else":
 			if depth <= 0 {
 				continue
 			}
-			b.src.WriteString("<%= if (false) { %>never<% } else { %>")
-			b.emit(s.Body, depth-1)
-			b.src.WriteString("<% } %>")
-		case "for":
+			p(w.code("=", "if (false) {") + "never" + w.code("", "} else {"))
+			parts = append(parts, w.walk(s.Body, depth-1, env, out)...)
+			p(w.code("", "}"))
+		case "branch": // the body is the taken branch of a chain; the others hold text and a tag as well
+			if depth <= 0 {
+				continue
+			}
+			never := func(k int) string { return fmt.Sprintf("never%d", k) + w.code("=", "9") }
+			var pre, post string
+			switch s.M % nBranchKinds {
+			case 0:
+				pre = w.code("=", "if (true) {")
+				post = w.code("", "} else if (true) {") + never(1) + w.code("", "} else {") + never(2) + w.code("", "}")
+			case 1:
+				pre = w.code("=", "if (false) {") + never(0) + w.code("", "} else if (true) {")
+				post = w.code("", "} else {") + never(2) + w.code("", "}")
+			case 2:
+				pre = w.code("=", "if (false) {") + never(0) + w.code("", "} else if (false) {") + never(1) + w.code("", "} else if (true) {")
+				post = w.code("", "}")
+			default:
+				pre = w.code("=", "if (false) {") + never(0) + w.code("", "} else if (false) {") + never(1) + w.code("", "} else {")
+				post = w.code("", "}")
+			}
+			p(pre)
+			parts = append(parts, w.walk(s.Body, depth-1, env, out)...)
+			p(post)
+		case "for", "sfor":
 			if depth <= 0 {
 				continue
 			}
 			n := s.N%3 + 1
-			fmt.Fprintf(&b.src, "<%%= for (it) in arr%d { %%>", n)
-			start := len(b.parts)
-			b.emit(s.Body, depth-1)
-			once := append([]match.Part(nil), b.parts[start:]...)
-			for k := 1; k < n; k++ {
-				b.parts = append(b.parts, once...)
+			kind := s.M % nIterKinds
+			if kind == 7 {
+				n = 1
 			}
-			b.src.WriteString("<% } %>")
-		case "fn":
+			isrc, vals := iterable(kind, n, w.variant)
+			name := fmt.Sprintf("it%d", s.id)
+			head := "for (" + name + ") in " + isrc + " {"
+			if kind == 4 || kind == 7 {
+				head = fmt.Sprintf("for (k%d, %s) in %s {", s.id, name, isrc)
+			}
+			eq := "="
+			if s.K == "sfor" {
+				eq = ""
+			}
+			p(w.code(eq, head))
+			for k, v := range vals {
+				o := out
+				if k > 0 {
+					o = nil // the source of the body is written once
+				}
+				with(name, v, func() {
+					ps := w.walk(s.Body, depth-1, env, o)
+					if s.K == "for" {
+						parts = append(parts, ps...)
+					}
+				})
+				if w.err != "" {
+					return nil
+				}
+			}
+			p(w.code("", "}"))
+		case "sif": // a code tag: the whole block contributes nothing
 			if depth <= 0 {
 				continue
 			}
-			b.nfn++
-			name := fmt.Sprintf("fun%d", b.nfn)
-			b.src.WriteString("<% let " + name + " = fn() { %>")
-			start := len(b.parts)
-			b.emit(s.Body, depth-1)
-			body := append([]match.Part(nil), b.parts[start:]...)
-			b.parts = b.parts[:start] // the definition itself emits nothing
-			b.src.WriteString("<% } %><%= " + name + "() %>")
-			b.parts = append(b.parts, body...)
+			p(w.code("", "if (true) {"))
+			w.walk(s.Body, depth-1, env, out)
+			p(w.code("", "}"))
+		case "sblk":
+			if depth <= 0 {
+				continue
+			}
+			p(w.code("", "blk() {"))
+			w.walk(s.Body, depth-1, env, out)
+			p(w.code("", "}"))
+		case "fn", "scall":
+			if depth <= 0 {
+				continue
+			}
+			f, par := fmt.Sprintf("fun%d", s.id), fmt.Sprintf("p%d", s.id)
+			p(w.code("", "let "+f+" = fn("+par+") {"))
+			w.walk(s.Body, depth-1, fnEnv(par, 0), out) // the definition itself emits nothing
+			p(w.code("", "}"))
+			call := func(arg interface{}) {
+				parts = append(parts, w.walk(s.Body, depth-1, fnEnv(par, arg), nil)...)
+			}
+			pat := s.M % nFnPatterns
+			if s.K == "scall" {
+				pat = 6
+			}
+			switch pat {
+			case 0:
+				p(w.code("=", f+"(1)"))
+				call(1)
+			case 1:
+				p(w.code("=", f+"(1)") + w.code("=", f+`("s<2>")`))
+				call(1)
+				call("s<2>")
+			case 2: // both results are alive inside one enclosing block
+				p(w.code("=", "if (true) {") + "A" + w.code("=", f+"(3)") + "B" + w.code("=", f+"(4)") + "C" + w.code("", "}"))
+				lit("A")
+				call(3)
+				lit("B")
+				call(4)
+				lit("C")
+			case 3: // one call site, executed once per iteration
+				q := fmt.Sprintf("q%d", s.id)
+				p(w.code("=", "for ("+q+") in arr2 {") + w.code("=", f+"("+q+")") + w.code("", "}"))
+				for _, v := range arrVals(w.variant, 2) {
+					call(v)
+				}
+			case 4: // never called
+			case 5: // called from a code tag first
+				p(w.code("", f+"(1)") + w.code("=", f+"(2)"))
+				call(2)
+			default: // scall: only called from a code tag
+				p(w.code("", f+"(1)"))
+			}
 		case "blk":
 			if depth <= 0 {
 				continue
 			}
-			b.src.WriteString("<%= blk() { %>")
-			b.emit(s.Body, depth-1)
-			b.src.WriteString("<% } %>")
+			if s.M%nBlkKinds == 1 { // the helper renders its block twice
+				p(w.code("=", "blk2() {"))
+				ps := w.walk(s.Body, depth-1, env, out)
+				parts = append(parts, ps...)
+				lit("|")
+				parts = append(parts, ps...)
+			} else {
+				p(w.code("=", "blk() {"))
+				parts = append(parts, w.walk(s.Body, depth-1, env, out)...)
+			}
+			p(w.code("", "}"))
 		default:
-			b.err = "unknown segment kind " + s.K
-			return
+			w.err = "unknown segment kind " + s.K
+			return nil
 		}
-		if b.err != "" {
-			return
+		if w.err != "" {
+			return nil
 		}
 	}
+	return parts
 }
 
-func baseData() map[string]interface{} {
-	return map[string]interface{}{
+// the body of a function sees its parameter; loop variables of the definition
+// site are not referred to inside it (prep resets the binder at the function)
+func fnEnv(par string, v interface{}) map[string]interface{} {
+	return map[string]interface{}{par: v}
+}
+
+func baseData(variant int) map[string]interface{} {
+	d := map[string]interface{}{
 		"hv": template.HTML("<em>H</em>"), "sv": "s<v>", "two": []int{1, 2},
-		"arr1": []int{1}, "arr2": []int{1, 2}, "arr3": []int{1, 2, 3},
-		"id":  func(x interface{}) interface{} { return x },
-		"blk": func(h plush.HelperContext) (template.HTML, error) { s, err := h.Block(); return template.HTML(s), err },
+		"id":   func(x interface{}) interface{} { return x },
+		"blk":  func(h plush.HelperContext) (template.HTML, error) { s, err := h.Block(); return template.HTML(s), err },
+		"blk2": func(h plush.HelperContext) (template.HTML, error) {
+			s, err := h.Block()
+			if err != nil {
+				return "", err
+			}
+			s2, err := h.Block()
+			return template.HTML(s + "|" + s2), err
+		},
 		"uf":  func() template.HTML { return "<uf>" },
+		"one": map[string]int{"k": 5 + variant},
 	}
+	for n := 1; n <= 3; n++ {
+		xs := arrVals(variant, n)
+		d[fmt.Sprintf("arr%d", n)] = append([]int(nil), xs...)
+		cp := append([]int(nil), xs...)
+		d[fmt.Sprintf("ptr%d", n)] = &cp
+		d[fmt.Sprintf("strs%d", n)] = append([]string(nil), strVals[:n]...)
+	}
+	d["fix1"] = [1]int{arrVals(variant, 1)[0]}
+	d["fix2"] = [2]int{arrVals(variant, 2)[0], arrVals(variant, 2)[1]}
+	d["fix3"] = [3]int{arrVals(variant, 3)[0], arrVals(variant, 3)[1], arrVals(variant, 3)[2]}
+	return d
+}
+
+// build returns the source (variant 0 only), the expected parts and fresh data.
+func build(c SegCase, variant int, withSrc bool) (src string, parts []match.Part, data map[string]interface{}, err string) {
+	w := &walker{pad: pads[c.Pad], variant: variant, data: baseData(variant)}
+	var sb strings.Builder
+	var out *strings.Builder
+	if withSrc {
+		out = &sb
+	}
+	parts = w.walk(c.Segs, 3, map[string]interface{}{}, out)
+	return sb.String(), parts, w.data, w.err
 }
 
 func checkSegs(r *vk.Run, c SegCase) *vk.Fail {
 	defer r.Watch("segs", c)()
-	b := &builder{data: baseData()}
-	b.emit(c.Segs, 3)
-	if b.err != "" {
+	if c.Pad < 0 || c.Pad >= len(pads) {
+		return &vk.Fail{Kind: "decode", Msg: "bad pad"}
+	}
+	ctr := 0
+	prep(c.Segs, &ctr, "", 3)
+	src, parts0, data0, e := build(c, 0, true)
+	if e != "" {
+		if strings.HasPrefix(e, "harness:") {
+			panic(e)
+		}
 		r.Exclude("inexpressible")
 		return nil
 	}
-	src := b.src.String()
-	res := vk.Safe(func() (string, error) { return plush.Render(src, plush.NewContextWith(b.data)) })
-	nested := strings.Contains(src, "{ %>")
+	_, parts1, data1, _ := build(c, 1, false)
+	_, _, data2, _ := build(c, 0, false)
+
+	// the same text rendered once through Render, then parsed once and executed
+	// twice: with other values, and again with the first ones
+	res0 := vk.Safe(func() (string, error) { return plush.Render(src, plush.NewContextWith(data0)) })
+	var t *plush.Template
+	resP := vk.Safe(func() (string, error) {
+		var err error
+		t, err = plush.Parse(src)
+		return "", err
+	})
+	var res1, res2 vk.Res
+	if !resP.Panicked() && resP.Err == nil && t != nil {
+		res1 = vk.Safe(func() (string, error) { return t.Exec(plush.NewContextWith(data1)) })
+		res2 = vk.Safe(func() (string, error) { return t.Exec(plush.NewContextWith(data2)) })
+	}
+	scrub(len(res0.Out) + len(res1.Out))
+
+	nested := strings.Contains(src, "{"+pads[c.Pad]+"%>")
 	nt := ""
-	if strings.Contains(src, "<% ") && nested || strings.Contains(src, "\\") || strings.Contains(src, "<%#") || strings.ContainsAny(src, "`\n") {
+	if strings.Contains(src, "<%"+pads[c.Pad]) && nested || strings.Contains(src, "\\") || strings.Contains(src, "<%#") || strings.ContainsAny(src, "`\n") {
 		nt = src
 	}
 	cls := "segments/flat"
@@ -384,16 +878,26 @@ func checkSegs(r *vk.Run, c SegCase) *vk.Fail {
 		cls = "segments/nested"
 	}
 	r.Count(nt, cls)
+	r.Evals(2)
 	if nt != "" {
 		r.Sample(func() interface{} {
-			return map[string]interface{}{"template": vk.Text(src), "expected": match.Describe(b.parts)}
+			return map[string]interface{}{"template": vk.Text(src), "expected": match.Describe(parts0), "expected with the second data": match.Describe(parts1)}
 		})
 	}
-	if res.Panicked() || res.Err != nil {
-		return &vk.Fail{Kind: "segs", Case: c, Msg: fmt.Sprintf("template %q: %s", src, res)}
+	if resP.Panicked() || resP.Err != nil {
+		return &vk.Fail{Kind: "segs", Case: c, Msg: fmt.Sprintf("template %q: Parse: %s", src, resP)}
 	}
-	if m := match.Match(b.parts, res.Out); m != "" {
-		return &vk.Fail{Kind: "segs", Case: c, Msg: fmt.Sprintf("template %q rendered %q; expected %s: %s", src, res.Out, match.Describe(b.parts), m)}
+	for _, x := range []struct {
+		what  string
+		res   vk.Res
+		parts []match.Part
+	}{{"Render", res0, parts0}, {"Exec of the parsed template with other values", res1, parts1}, {"Exec of the parsed template with the first values again", res2, parts0}} {
+		if x.res.Panicked() || x.res.Err != nil {
+			return &vk.Fail{Kind: "segs", Case: c, Msg: fmt.Sprintf("template %q: %s: %s", src, x.what, x.res)}
+		}
+		if m := match.Match(x.parts, x.res.Out); m != "" {
+			return &vk.Fail{Kind: "segs", Case: c, Msg: fmt.Sprintf("template %q: %s gave %q; expected %s: %s", src, x.what, x.res.Out, match.Describe(x.parts), m)}
+		}
 	}
 	return nil
 }
@@ -402,6 +906,7 @@ func checkSegs(r *vk.Run, c SegCase) *vk.Fail {
 var textFrags = []string{
 	"a", "b c", "<", ">", "%", "%>", "< %", "=", "#", "\"", "'", "`", "{", "}", "(", ")", "\\", "\\<", "\\\\", "\\%", "<\\%", "\n", "\r\n", "\t", " ",
 	"é", "漢", "\xff", "<b>", "</b>", "&amp;", "&", "<!-- c -->", "if (x) {", "%}", "{{x}}", "$", "@", "return", "<?php", "<script>", "-->",
+	"else", "} else {", "\n\n", "  ", "\v", "\f", " ", " ", "<%", "# x", "-%>", "<%-", "<%%", "%%>",
 }
 
 func genText(t *rapid.T) string {
@@ -413,11 +918,13 @@ func genText(t *rapid.T) string {
 	return strings.ReplaceAll(sb.String(), "<%", "< %")
 }
 
+var nestKinds = []string{"if", "else", "branch", "for", "for", "fn", "blk", "sif", "sfor", "sblk", "scall"}
+
 func genSegs(t *rapid.T, depth int) []Seg {
 	n := rapid.IntRange(1, 6).Draw(t, "nseg")
 	var out []Seg
 	for i := 0; i < n; i++ {
-		k := rapid.IntRange(0, 17).Draw(t, "seg")
+		k := rapid.IntRange(0, 19).Draw(t, "seg")
 		switch {
 		case k <= 2:
 			out = append(out, Seg{K: "text", S: vk.Text(genText(t))})
@@ -438,9 +945,12 @@ func genSegs(t *rapid.T, depth int) []Seg {
 		case k == 12:
 			c := strings.ReplaceAll(strings.ReplaceAll(gen.Payload(t, "cm"), "%>", "% >"), "\x00", "0")
 			out = append(out, Seg{K: "comment", S: vk.Text(c)})
+		case k == 13 || k == 14:
+			out = append(out, Seg{K: "emit-it", N: rapid.IntRange(0, 99).Draw(t, "n")})
 		default:
 			if depth > 0 {
-				out = append(out, Seg{K: rapid.SampledFrom([]string{"if", "else", "for", "fn", "blk"}).Draw(t, "nest"), N: rapid.IntRange(0, 2).Draw(t, "reps"), Body: genSegs(t, depth-1)})
+				out = append(out, Seg{K: rapid.SampledFrom(nestKinds).Draw(t, "nest"), N: rapid.IntRange(0, 2).Draw(t, "reps"),
+					M: rapid.IntRange(0, 17).Draw(t, "m"), Body: genSegs(t, depth-1)})
 			} else {
 				out = append(out, Seg{K: "text", S: vk.Text(genText(t))})
 			}
@@ -449,20 +959,194 @@ func genSegs(t *rapid.T, depth int) []Seg {
 	return out
 }
 
+// atoms: one representative of every segment kind, for the exhaustive
+// neighbourhoods (every ordered pair and triple, in every kind of block)
+func atoms() []Seg {
+	body := func() []Seg { return []Seg{{K: "text", S: "t"}, {K: "emit-it", N: 5}} }
+	return []Seg{
+		{K: "text", S: "a"}, {K: "text", S: "<"}, {K: "text", S: "\n"}, {K: "text", S: " "}, {K: "text", S: "%>"},
+		{K: "esc-tag"}, {K: "bs-tag"},
+		{K: "emit-int", N: 7}, {K: "emit-var", S: "v<w>"}, {K: "emit-html", S: "<b>h</b>"}, {K: "emit-str", S: "%> <% \"`"}, {K: "emit-it", N: 8},
+		{K: "silent", N: 0}, {K: "silent", N: 2}, {K: "silent", N: 15}, {K: "silent", N: 24}, {K: "silent", N: 25}, {K: "assign"},
+		{K: "comment", S: ""}, {K: "comment", S: " c \" # ` <% "},
+		{K: "if", Body: body()}, {K: "branch", M: 1, Body: body()}, {K: "branch", M: 3, Body: body()},
+		{K: "for", N: 1, Body: body()}, {K: "for", N: 1, M: 2, Body: body()}, {K: "fn", M: 1, Body: body()}, {K: "fn", M: 2, Body: body()},
+		{K: "blk", Body: body()}, {K: "blk", M: 1, Body: body()},
+		{K: "sif", Body: body()}, {K: "sfor", N: 1, Body: body()}, {K: "sblk", Body: body()}, {K: "scall", Body: body()},
+	}
+}
+
+var contexts = []string{"top", "if", "branch1", "branch2", "branch3", "for2", "for-range2", "fn-twice", "fn-in-loop", "blk", "blk-twice", "sif"}
+
+func inContext(ctx string, segs []Seg) []Seg {
+	switch ctx {
+	case "top":
+		return segs
+	case "if":
+		return []Seg{{K: "if", Body: segs}}
+	case "branch1", "branch2", "branch3":
+		return []Seg{{K: "branch", M: int(ctx[6] - '0'), Body: segs}}
+	case "for2":
+		return []Seg{{K: "for", N: 1, Body: segs}}
+	case "for-range2":
+		return []Seg{{K: "for", N: 1, M: 2, Body: segs}}
+	case "fn-twice":
+		return []Seg{{K: "fn", M: 1, Body: segs}}
+	case "fn-in-loop":
+		return []Seg{{K: "fn", M: 3, Body: segs}}
+	case "blk":
+		return []Seg{{K: "blk", Body: segs}}
+	case "blk-twice":
+		return []Seg{{K: "blk", M: 1, Body: segs}}
+	default:
+		return []Seg{{K: "sif", Body: segs}}
+	}
+}
+
+func cloneSegs(in []Seg) []Seg {
+	out := make([]Seg, len(in))
+	for i, s := range in {
+		out[i] = s
+		out[i].Body = cloneSegs(s.Body)
+	}
+	return out
+}
+
+// ---- (4) depth and width ------------------------------------------------------------------------
+
+// DeepCase: N blocks nested in each other with text on both sides at every
+// level, or N tags / iterations / bytes in a row.
+type DeepCase struct {
+	Kind string `json:"kind"`
+	N    int    `json:"n"`
+}
+
+var deepKinds = []string{"if", "else", "for1", "mixed", "silent-inside", "fn", "blk"}
+var wideKinds = []string{"wide-tags", "wide-silent", "wide-comments", "wide-loop", "wide-blocks", "long-text", "long-string"}
+
+func (c DeepCase) build() (src, want string, data map[string]interface{}, ok bool) {
+	data = map[string]interface{}{"arr1": []int{1},
+		"blk": func(h plush.HelperContext) (template.HTML, error) { s, err := h.Block(); return template.HTML(s), err }}
+	n := c.N
+	var a, b strings.Builder
+	opener := func(kind string, i int) (string, string) {
+		switch kind {
+		case "else":
+			return "<%= if (false) { %>n<% } else { %>", "<% } %>"
+		case "for1":
+			return "<%= for (v) in arr1 { %>", "<% } %>"
+		case "fn":
+			return fmt.Sprintf("<%% let f%d = fn() { %%>", i), fmt.Sprintf("<%% } %%><%%= f%d() %%>", i)
+		case "blk":
+			return "<%= blk() { %>", "<% } %>"
+		}
+		return "<%= if (true) { %>", "<% } %>"
+	}
+	switch c.Kind {
+	case "if", "else", "for1", "mixed", "silent-inside", "fn", "blk":
+		closers := make([]string, n)
+		for i := 0; i < n; i++ {
+			kind := c.Kind
+			if kind == "mixed" || kind == "silent-inside" {
+				kind = []string{"if", "else", "for1"}[i%3]
+			}
+			o, cl := opener(kind, i)
+			a.WriteString(o + "(")
+			closers[i] = ")" + cl
+		}
+		a.WriteString("X")
+		want = strings.Repeat("(", n) + "X" + strings.Repeat(")", n)
+		if c.Kind == "silent-inside" { // the innermost block holds a silent block and a comment as well
+			a.WriteString("<% if (true) { %>hidden<% } %><%# c %>Y")
+			want = strings.Repeat("(", n) + "XY" + strings.Repeat(")", n)
+		}
+		for i := n - 1; i >= 0; i-- {
+			a.WriteString(closers[i])
+		}
+		return "[" + a.String() + "]", "[" + want + "]", data, true
+	case "wide-tags":
+		for i := 0; i < n; i++ {
+			fmt.Fprintf(&a, "x<%%= %d %%>", i%10)
+			fmt.Fprintf(&b, "x%d", i%10)
+		}
+	case "wide-silent":
+		for i := 0; i < n; i++ {
+			a.WriteString("y<% 1 %>")
+			b.WriteString("y")
+		}
+	case "wide-comments":
+		for i := 0; i < n; i++ {
+			a.WriteString("<%# c %>z")
+			b.WriteString("z")
+		}
+	case "wide-loop":
+		data["big"] = make([]int, n)
+		a.WriteString("<%= for (v) in big { %>x<%= v %><% } %>")
+		b.WriteString(strings.Repeat("x0", n))
+	case "wide-blocks":
+		for i := 0; i < n; i++ {
+			fmt.Fprintf(&a, "<%%= if (true) { %%>%d<%% } %%>", i%10)
+			fmt.Fprintf(&b, "%d", i%10)
+		}
+	case "long-text":
+		unit := "ab<c\\d%e>f\n\"g\xff<\\%"
+		for a.Len() < n {
+			a.WriteString(unit)
+		}
+		b.WriteString(a.String() + "1")
+		a.WriteString(tag)
+	case "long-string":
+		unit := "ab<%c%>d#e\n"
+		for b.Len() < n {
+			b.WriteString(unit)
+		}
+		a.WriteString("<%= raw(`" + b.String() + "`) %>")
+	default:
+		return "", "", nil, false
+	}
+	return "[" + a.String() + "]", "[" + b.String() + "]", data, true
+}
+
+func checkDeep(r *vk.Run, c DeepCase) *vk.Fail {
+	defer r.Watch("deep", c)()
+	src, want, data, ok := c.build()
+	if !ok || c.N < 0 || c.N > 1<<22 {
+		return &vk.Fail{Kind: "decode", Msg: "bad deep case"}
+	}
+	res := vk.Safe(func() (string, error) { return plush.Render(src, plush.NewContextWith(data)) })
+	scrub(len(res.Out))
+	r.Count(fmt.Sprintf("%s/%d", c.Kind, c.N), "depth-and-width/"+c.Kind)
+	r.Sample(func() interface{} { return c })
+	if res.Panicked() || res.Err != nil || res.Out != want {
+		cls := ""
+		if c.N >= 900 && !strings.HasPrefix(c.Kind, "wide") && !strings.HasPrefix(c.Kind, "long") {
+			cls = "deep-block-nesting"
+		}
+		got := res.String()
+		if len(got) > 200 {
+			got = got[:100] + " … " + got[len(got)-100:]
+		}
+		return &vk.Fail{Kind: "deep", Class: cls, Case: c, Msg: fmt.Sprintf("%d x %s: output (%d bytes) %s; the statement says %d bytes: every text and tag value in source order", c.N, c.Kind, len(res.Out), got, len(want))}
+	}
+	return nil
+}
+
 // ---- the test -----------------------------------------------------------------------------------
 
-const rule = "(E1) every string of length <= L (quick 4, thorough 6) over {a \\ < % > = # \"} that an independent reference scanner (written from the two escape rules of the statement) classifies as literal text, alone and in the frames s+TAG, TAG+s, s+TAG+s2, IF{s+TAG}, FOR2{s+TAG}; strings with a live opener or with >=3 backslashes before <% are outside the statement and counted under excluded. (E2) every string VALUE of length <= 5 (quick 4) over {a \\ \" ` % > < # newline} spelled as a double-quoted and as a back-quoted literal where expressible, at 4 places; the output must decode to exactly that value. (R) random segment sequences: literal text over an alphabet with <, %, >, \\, =, #, quotes, braces, newlines, multi-byte and invalid bytes; \\<%..%> and \\\\<%..%> forms; output tags of ints, string variables, trusted HTML, string literals of arbitrary contents; 21 kinds of silent tags (expressions of every value type incl. HTML-typed, let, assignment, helper calls, silent if / for with text bodies); comment tags with arbitrary contents; at top level and nested in <%= if %>, else, <%= for %> x n, function bodies and block helpers to depth 3. Oracle: the expected part list built alongside (literal / escaped payload / verbatim payload) checked with the entity-decoding matcher. (F, thorough) native fuzzing of the text scanner against the reference scanner. Non-trivial = text with \\, < or %, a string literal with a delimiter/quote/newline, a silent tag inside a block, a comment, or a multi-line construct; distinct by template."
+const rule = "(E1) every string of length <= L (quick 4, thorough 6) over {a \\ < % > = # \"} that an independent reference scanner (written from the two escape rules of the statement) classifies as literal text, alone and next to a tag in the frames s+TAG, TAG+s, s+TAG+s2 (7 tails), and directly after the opening / directly before the closing tag of a block: IF{s+TAG}, IF{TAG+s}, ELSE{TAG+s}, ELSEIF{s+TAG+s}, FOR2{s+TAG}, FOR2{TAG+s}, FN{s+TAG+s}, BLK{TAG+s}, SILENT-IF{s+TAG+s}; TAG is an output tag, and for strings of length <= 5 (quick 3) also a code tag, a comment tag and an output tag without blanks; strings with a live opener or with >=3 backslashes before <% are outside the statement and counted under excluded. (E2) every string VALUE of length <= 5 (quick 4) over {a \\ \" ` % > < # newline} spelled as a double-quoted and as a back-quoted literal where expressible, at 12 places (top, if, else-if, for, helper block, helper argument, template-function argument, array element, let, after a silent tag holding the same literal, without blanks, with line breaks); the output must decode to exactly that value. (E3) every ordered pair of values of length <= 2 over {a \\ \" ` %> <% newline #} x the four quote combinations in one template (two tags, two lets in one tag, two arguments of one call). (E4) every comment body of length <= 3 (thorough 4) over {a blank % > < # \" ` \\ = newline -} not containing %>, in 7 frames (alone, before / after a tag, in a block, two in a row, in a loop, between let and use). (E5) every ordered pair (thorough: and triple) of 33 representative segments in 12 kinds of surroundings (top level, if, three else-if chain positions, two loops, function called twice / from a loop, helper block rendered once / twice, silent block). (E6) N blocks nested in each other (if, else, single-iteration for, mixed, with a silent block and a comment innermost, template functions, helper blocks) with text on both sides at every level, N up to 1500 (thorough 5000; functions and helpers up to 400: deeper calls are a documented error); N tags, code tags, comments, blocks, loop iterations in a row (up to 20000), 1 MiB of text and a 1 MiB string. (R) random segment sequences: literal text over an alphabet with <, %, >, \\, =, #, quotes, braces, newlines, other blanks, multi-byte and invalid bytes, delimiter look-alikes; \\<%..%> and \\\\<%..%> forms; output tags of ints, string variables, trusted HTML, string literals of arbitrary contents, the innermost loop variable / function parameter; 36 kinds of silent tags (expressions of every value type incl. HTML-typed, let, assignment, helper calls, several statements in one tag, line comments, blocks inside the tag, silent if / for with text bodies); comment tags with arbitrary contents; at top level and nested to depth 3 in <%= if %>, else, every position of an else-if chain, <%= for %> x n over 9 kinds of iterables (slice, array literal, range, until, Go array, pointer, strings, one-entry map, two-variable form), template functions with a parameter (called once, twice, twice inside one block, from a loop, never, from a code tag first), block helpers rendering their block once or twice, and SILENT blocks (if, for, helper block, function called from a code tag) whose whole arbitrary body must contribute nothing; five spellings of the blanks inside the tag delimiters (one blank, none, newline, tab, CRLF). Every generated template is rendered with Render, then parsed once and executed twice with other values of every variable and again with the first values; every output is compared only after an unrelated longer render (an output must not share memory with engine state). Oracle: the expected part list built alongside (literal / escaped payload / verbatim payload) checked with the entity-decoding matcher. (F, thorough) native fuzzing of the text scanner against the reference scanner. Non-trivial = text with \\, < or %, a string literal with a delimiter/quote/newline, a silent tag inside a block, a comment, or a multi-line construct; distinct by template."
 
 func setup(t *testing.T) *vk.Run {
 	r := vk.Start(t, "C02", rule,
 		"NUL bytes are excluded (the statement says NUL-free); three or more backslashes before <% are ambiguous under the statement",
-		"text segments of the random phase never contain '<%' and never end in a backslash directly before a tag (those shapes are covered exhaustively by E1)")
+		"text segments of the random phase never contain '<%' and never end in a backslash directly before a tag (those shapes are covered exhaustively by E1)",
+		"template functions and helper blocks nested deeper than 400 are not generated: calls nested deeper than 1000 are a documented error",
+		"what a loop variable or a parameter holds inside a helper block / an if of the same body is taken as the plain reading (the value bound); a function body does not refer to loop variables of its definition site")
 	r.Replayer("text", func(raw json.RawMessage) *vk.Fail {
 		var c TextCase
 		if f := vk.Decode(raw, &c); f != nil {
 			return f
 		}
-		if c.Frame < 0 || c.Frame >= len(frameNames) {
+		if c.Frame < 0 || c.Frame >= len(frameNames) || c.Tag < 0 || c.Tag >= len(tagVariants) {
 			return &vk.Fail{Kind: "decode", Msg: "bad frame"}
 		}
 		return checkText(r, c)
@@ -477,12 +1161,40 @@ func setup(t *testing.T) *vk.Run {
 		}
 		return checkStr(r, c)
 	})
+	r.Replayer("strpair", func(raw json.RawMessage) *vk.Fail {
+		var c PairCase
+		if f := vk.Decode(raw, &c); f != nil {
+			return f
+		}
+		okq := func(q string) bool { return q == "\"" || q == "`" }
+		if c.Shape < 0 || c.Shape >= len(pairShapes) || !okq(c.Q1) || !okq(c.Q2) {
+			return &vk.Fail{Kind: "decode", Msg: "bad case"}
+		}
+		return checkPair(r, c)
+	})
+	r.Replayer("comment", func(raw json.RawMessage) *vk.Fail {
+		var c CommentCase
+		if f := vk.Decode(raw, &c); f != nil {
+			return f
+		}
+		if c.Frame < 0 || c.Frame >= len(commentFrames) {
+			return &vk.Fail{Kind: "decode", Msg: "bad frame"}
+		}
+		return checkComment(r, c)
+	})
 	r.Replayer("segs", func(raw json.RawMessage) *vk.Fail {
 		var c SegCase
 		if f := vk.Decode(raw, &c); f != nil {
 			return f
 		}
 		return checkSegs(r, c)
+	})
+	r.Replayer("deep", func(raw json.RawMessage) *vk.Fail {
+		var c DeepCase
+		if f := vk.Decode(raw, &c); f != nil {
+			return f
+		}
+		return checkDeep(r, c)
 	})
 	r.Replayer("gofuzz", func(raw json.RawMessage) *vk.Fail {
 		var c struct {
@@ -531,26 +1243,31 @@ func TestProp(t *testing.T) {
 	// E1
 	strs := enumStrings([]string{"a", "\\", "<", "%", ">", "=", "#", "\""}, r.Pick(4, 6))
 	tails := []string{"", "b", "\\", "<", "%>", "\\<", "<%= 1 %>"}
-	total := int64(len(strs)) * int64(5+len(tails))
-	r.Subspace(fmt.Sprintf("literal text: %d strings over {a \\ < %% > = # \"} x frames {s, s+TAG, TAG+s, IF, FOR2, s+TAG+s2 for 7 tails}", len(strs)), total, true)
+	blockFrames := []int{4, 5, 6, 7, 8, 9, 10, 11, 12}
+	slots := int64(3 + len(blockFrames) + len(tails))
+	nvar := int64(len(tagVariants))
+	total := int64(len(strs)) * slots * nvar
+	r.Subspace(fmt.Sprintf("literal text: %d strings over {a \\ < %% > = # \"} x frames {s, s+TAG, TAG+s, 9 block frames, s+TAG+s2 for 7 tails} x 4 kinds of TAG (the other three for length <= 5)", len(strs)), total, true)
 	r.Parallel(total, 0, func(i int64) {
-		s := strs[i/int64(5+len(tails))]
-		f := int(i % int64(5+len(tails)))
+		tv := int(i % nvar)
+		f := int((i / nvar) % slots)
+		s := strs[i/nvar/slots]
+		if tv > 0 && (f == 0 || len(s) > r.Pick(3, 5)) {
+			return
+		}
 		switch {
 		case f < 3:
-			r.Check(checkText(r, TextCase{S: vk.Text(s), Frame: f}))
-		case f == 3:
-			r.Check(checkText(r, TextCase{S: vk.Text(s), Frame: 4}))
-		case f == 4:
-			r.Check(checkText(r, TextCase{S: vk.Text(s), Frame: 5}))
+			r.Check(checkText(r, TextCase{S: vk.Text(s), Frame: f, Tag: tv}))
+		case f < 3+len(blockFrames):
+			r.Check(checkText(r, TextCase{S: vk.Text(s), Frame: blockFrames[f-3], Tag: tv}))
 		default:
-			r.Check(checkText(r, TextCase{S: vk.Text(s), S2: vk.Text(tails[f-5]), Frame: 3}))
+			r.Check(checkText(r, TextCase{S: vk.Text(s), S2: vk.Text(tails[f-3-len(blockFrames)]), Frame: 3, Tag: tv}))
 		}
 	})
 	// E2
 	vals := enumStrings([]string{"a", "\\", "\"", "`", "%", ">", "<", "#", "\n"}, r.Pick(4, 5))
 	total = int64(len(vals)) * 2 * int64(len(strPlaces))
-	r.Subspace(fmt.Sprintf("string literals: %d values over {a \\ \" ` %% > < # newline} x {double, back} quotes x 4 places", len(vals)), total, true)
+	r.Subspace(fmt.Sprintf("string literals: %d values over {a \\ \" ` %% > < # newline} x {double, back} quotes x %d places", len(vals), len(strPlaces)), total, true)
 	r.Parallel(total, 0, func(i int64) {
 		pl := int(i % int64(len(strPlaces)))
 		q := []string{"\"", "`"}[(i/int64(len(strPlaces)))%2]
@@ -560,9 +1277,78 @@ func TestProp(t *testing.T) {
 		}
 		r.Check(checkStr(r, StrCase{V: vk.Text(v), Quote: q, Place: pl}))
 	})
+	// E3
+	pvals := enumStrings([]string{"a", "\\", "\"", "`", "%>", "<%", "\n", "#"}, 2)
+	np := int64(len(pvals))
+	total = np * np * 4 * int64(len(pairShapes))
+	r.Subspace(fmt.Sprintf("pairs of string literals: %d x %d values over {a \\ \" ` %%> <%% newline #} x 4 quote combinations x 3 shapes", np, np), total, true)
+	r.Parallel(total, 0, func(i int64) {
+		sh := int(i % 3)
+		q := int((i / 3) % 4)
+		j := i / 12
+		qs := []string{"\"", "`"}
+		r.Check(checkPair(r, PairCase{V1: vk.Text(pvals[j/np]), Q1: qs[q/2], V2: vk.Text(pvals[j%np]), Q2: qs[q%2], Shape: sh}))
+	})
+	// E4
+	bodies := enumStrings([]string{"a", " ", "%", ">", "<", "#", "\"", "`", "\\", "=", "\n", "-"}, r.Pick(3, 4))
+	total = int64(len(bodies)) * int64(len(commentFrames))
+	r.Subspace(fmt.Sprintf("comment tags: %d bodies over {a blank %% > < # \" ` \\ = newline -} x %d frames", len(bodies), len(commentFrames)), total, true)
+	r.Parallel(total, 0, func(i int64) {
+		r.Check(checkComment(r, CommentCase{B: vk.Text(bodies[i/int64(len(commentFrames))]), Frame: int(i % int64(len(commentFrames)))}))
+	})
+	// E5
+	at := atoms()
+	na, nc := int64(len(at)), int64(len(contexts))
+	total = na * na * nc * int64(len(pads))
+	r.Subspace(fmt.Sprintf("neighbourhoods: every ordered pair of %d representative segments x %d surroundings x %d spellings of the blanks in tags", na, nc, len(pads)), total, true)
+	r.Parallel(total, 0, func(i int64) {
+		pad := int(i % int64(len(pads)))
+		j := i / int64(len(pads))
+		ctx := contexts[j%nc]
+		j /= nc
+		segs := cloneSegs([]Seg{at[j/na], at[j%na]})
+		r.Check(checkSegs(r, SegCase{Segs: inContext(ctx, segs), Pad: pad}))
+	})
+	tripleCtx := contexts
+	if !r.Thorough() {
+		tripleCtx = []string{"top"}
+	}
+	ntc := int64(len(tripleCtx))
+	total = na * na * na * ntc
+	r.Subspace(fmt.Sprintf("neighbourhoods: every ordered triple of %d representative segments x %d surroundings", na, ntc), total, true)
+	r.Parallel(total, 0, func(i int64) {
+		ctx := tripleCtx[i%ntc]
+		j := i / ntc
+		segs := cloneSegs([]Seg{at[j/(na*na)], at[(j/na)%na], at[j%na]})
+		r.Check(checkSegs(r, SegCase{Segs: inContext(ctx, segs), Pad: int(j % int64(len(pads)))}))
+	})
+	// E6
+	depths := []int{0, 1, 2, 3, 10, 100, 500, 998, 999, 1000, 1001, 1500}
+	if r.Thorough() {
+		depths = append(depths, 997, 1002, 2000, 5000)
+	}
+	var deep []DeepCase
+	for _, k := range deepKinds {
+		for _, n := range depths {
+			if (k == "fn" || k == "blk") && n > 400 {
+				n = n % 401 // calls nested deeper than 1000 are a documented error
+			}
+			deep = append(deep, DeepCase{Kind: k, N: n})
+		}
+	}
+	for _, k := range wideKinds {
+		for _, n := range []int{0, 1, 2, 1000, r.Pick(20000, 200000)} {
+			if strings.HasPrefix(k, "long") {
+				n *= 50
+			}
+			deep = append(deep, DeepCase{Kind: k, N: n})
+		}
+	}
+	r.Subspace(fmt.Sprintf("depth and width: %d kinds of nesting x %d depths, %d kinds of repetition x 5 lengths", len(deepKinds), len(depths), len(wideKinds)), int64(len(deep)), true)
+	r.Parallel(int64(len(deep)), 0, func(i int64) { r.Check(checkDeep(r, deep[i])) })
 	// R
-	r.Rapid("segments", r.Pick(6000, 80000), func(t *rapid.T) *vk.Fail {
-		return checkSegs(r, SegCase{Segs: genSegs(t, 3)})
+	r.Rapid("segments", r.Pick(8000, 80000), func(t *rapid.T) *vk.Fail {
+		return checkSegs(r, SegCase{Segs: genSegs(t, 3), Pad: rapid.SampledFrom([]int{0, 0, 0, 1, 2, 3, 4}).Draw(t, "pad")})
 	})
 	_ = model.QuoteString
 }
